@@ -157,6 +157,58 @@ def check_file_api(acc, tmp, name, lines, flav, tier):
                     acc.violation(Viol('dump-vs-dumps', 'file-content-differs-from-dumps', dict(case, options=on), s[:300], b.decode('utf-8', 'replace')[:300]))
 
 
+def same_length_variant(lines):
+    """another document of exactly the same byte length: the first plain note gets the next pitch letter"""
+    import re
+    out = list(lines)
+    for i, ln in enumerate(out):
+        if ln.startswith(('*', '!', '=')):
+            continue
+        cells = ln.split('\t')
+        for j, c in enumerate(cells):
+            m = re.fullmatch(r'(\d+\.*)([a-fA-F])(\2*)([#\-n]*)', c)
+            if m:
+                nxt = chr(ord(m.group(2)) + 1)
+                cells[j] = m.group(1) + nxt * (1 + len(m.group(3))) + m.group(4)
+                out[i] = '\t'.join(cells)
+                return out
+    return None
+
+
+def check_path_reuse(acc, tmp, docs):
+    """history on ONE path: the file is rewritten (same length, other length, removed and re-created) between loads; every load must equal loads(current text)"""
+    p = os.path.join(tmp, 'in', 'reused.krn')
+    os.makedirs(os.path.dirname(p), exist_ok=True)
+    picked = [(n, l) for n, l, f in docs if f in ('ascii', 'non-ascii') and same_length_variant(l)][:6]
+    for name, lines in picked:
+        a = '\n'.join(lines) + '\n'
+        b = '\n'.join(same_length_variant(lines)) + '\n'
+        other = '\n'.join(docs[0][1]) + '\n'
+        seq = [('first', a), ('same-length-rewrite', b), ('back', a), ('same-length-rewrite', b), ('other-document', other), ('same-length-rewrite-after-other', b),
+               ('removed-and-recreated', a), ('same-length-rewrite', b), ('back', a)]
+        for step, (what, text) in enumerate(seq):
+            if what == 'removed-and-recreated' and os.path.exists(p):
+                os.unlink(p)
+            with open(p, 'wb') as f:
+                f.write(text.encode('utf-8'))
+            acc.count('evaluations')
+            acc.count('transitions', 2)
+            acc.nontriv(('reuse', name, step))
+            case = {'doc': name, 'text': text, 'path_reuse': [w for w, _ in seq[:step + 1]], 'flavour': 'ascii'}
+            try:
+                d1, e1 = kp.load(p)
+                d2, e2 = kp.loads(text)
+                o1, o2 = observations(d1, e1), observations(d2, e2)
+            except Exception as e:  # noqa
+                acc.violation(Viol('same-path-rewritten', 'raises', case, None, f'{type(e).__name__}: {str(e)[:80]}'))
+                continue
+            acc.count('traces')
+            if o1 != o2:
+                k = next(k for k in o1 if o1[k] != o2[k])
+                acc.violation(Viol('same-path-rewritten', 'loading-the-file-differs-from-loading-its-current-text', dict(case, observation=k, step=what), str(o2[k])[:300], str(o1[k])[:300]))
+                break
+
+
 def cli(tmp, args, src):
     env = {'PATH': os.environ.get('PATH', ''), 'PYTHONPATH': src, 'PYTHONUTF8': '1', 'PYTHONHASHSEED': '0', 'PYTHONDONTWRITEBYTECODE': '1', 'HOME': tmp}
     return subprocess.run([sys.executable, '-m', 'kernpy'] + args, cwd=tmp, env=env, capture_output=True, text=True, timeout=300)
@@ -318,6 +370,7 @@ def run(ctx):
     try:
         for name, lines, flav in docs:
             check_file_api(ctx, tmp, name, lines, flav, ctx.tier)
+        check_path_reuse(ctx, tmp, docs)
         ctx.sample({'doc': docs[1][0], 'text': '\r\n'.join(docs[1][1]), 'variant': 'CRLF, no final newline'})
         check_cli(ctx, tmp, docs, src, ctx.tier)
     finally:
@@ -333,6 +386,9 @@ def replay(case):
             check_cli(acc, tmp, doc_texts('quick', 0), src, 'quick')
             vs = [v for v in acc.viol if v['case'].get('mode') == case['mode']]
             return vs
+        if 'path_reuse' in case:
+            check_path_reuse(acc, tmp, doc_texts('quick', case.get('seed', 0)))
+            return acc.viol
         lines = None
         for eol in ('\r\n', '\r', '\n'):
             if eol in case['text']:
